@@ -61,11 +61,12 @@ class Exchange:
         self.exec_n = 0
         self.requests = []          # FIFO of request dicts not yet looked at
         self.pending = None         # request being worked (acknowledged as pending): dict
+        self.fills = []             # (exec id, quantity) of the trades still standing
         self.anomalies = []         # requests that referred to a wrong OrigClOrdID / reused a ClOrdID
         self.seen_ids = set()
 
     def key(self):
-        return (self.status, self.qty, self.price, self.cum, self.leaves, self.live_id, self.exec_n,
+        return (self.status, self.qty, self.price, self.cum, self.leaves, self.live_id, self.exec_n, tuple(self.fills),
                 tuple(tuple(sorted(r.items())) for r in self.requests), None if self.pending is None else tuple(sorted(self.pending.items())))
 
     # -- reports
@@ -111,6 +112,10 @@ class Exchange:
             a += ["fill:partial", "fill:full"]
             if self.pending is None:          # what status word an expiry / unsolicited cancel carries while a request is pending is not pinned down by the matrices
                 a += ["suspend", "expire", "cancel:unsolicited"]
+        if self.status == "1" and self.pending is None and len(self.fills) >= 2:
+            # Trade Cancel (matrices, section E): the last trade is taken back.  Only while another trade stands: the order stays
+            # partially filled; which status word follows the bust of the ONLY trade is not among the report kinds the property lists
+            a += ["bust"]
         if self.status == "9" and self.pending is None:
             a += ["resume", "cancel:unsolicited"]
         return a
@@ -169,6 +174,7 @@ class Exchange:
             if q <= 0:
                 return []
             self.cum += q
+            self.fills.append((f"E{self.exec_n + 1}", q))
             self.leaves = self.qty - self.cum
             if self.leaves <= 1e-9:
                 self.leaves = 0.0
@@ -186,6 +192,16 @@ class Exchange:
             if r is not None:
                 out.append(self._rej(r, code))
             return out
+        if action == "bust":
+            ref, q = self.fills.pop()
+            self.cum = max(0.0, self.cum - q)
+            if self.cum <= 1e-9:
+                self.cum = 0.0
+            self.leaves = self.qty - self.cum
+            self.status = "1" if self.cum > 0 else "0"
+            r = self._er("H", self.status)
+            r[19] = ref
+            return [r]
         if action == "suspend":
             self.status = "9"
             return [self._er("9", "9")]
@@ -224,6 +240,13 @@ def _selftest_exchange():
     f = x.step("fill:full")
     assert f[0][39] == "6" and f[0][151] == 0.0 and f[1][35] == "9" and f[1][39] == "2" and x.pending is None
     assert "fill:partial" not in x.actions()
+    y = Exchange()
+    y.submit({35: "D", 11: "r--1", 38: 8, 44: 1.0, 54: "1", 55: "T"})
+    y.step("req:ack"); y.step("fill:partial"); y.step("fill:partial")
+    assert y.cum == 6.0 and "bust" in y.actions()
+    b = y.step("bust")[0]
+    assert b[150] == "H" and b[14] == 4.0 and b[151] == 4.0 and b[39] == "1" and b[19] == "E3"
+    assert "bust" not in y.actions()
     return True
 
 
